@@ -5,7 +5,9 @@ from checks import _wrap
 
 META = {
     "level": "other",
-    "text": "Deductive (unbounded): the guard of match.main on the loaded chain of substitutions is verified from its AST for chains of any length: a variant is skipped with an "
+    "text": "Deductive, complete for k <= 3 parameters (symbolic entries; the bound is on k only): the tail of simplifier.convert_params (from np.linalg.inv(j) to the return) returns the diagonal of "
+            "J^-T F J^-1 for the Jacobian j it is given and a symmetric F, and hands the converted parameters back untouched (straight-line numpy matrix code executed symbolically from the AST, pyvc/matrixvc.py). "
+            "Deductive (unbounded): the guard of match.main on the loaded chain of substitutions is verified from its AST for chains of any length: a variant is skipped with an "
             "infinite code length if and only if its chain contains an unrecoverable (non-dict, i.e. nan) entry; a chain of recoverable substitutions of any length is never "
             "skipped there. The rest of the loop body of match.main is verified for any number of parameters with the likelihood an uninterpreted function: a non-positive entry of the "
             "transformed Fisher diagonal gives an infinite code length; on regular input the reported parameters are the converted parameters with every entry below one precision step "
@@ -39,6 +41,7 @@ def check(run):
     if D.canary(run, "fitting/match.py", "main", (lambda: c_match.snap_contract("finite")), engine_setup=setopts) is False:
         raise RuntimeError("canary verified: engine vacuous on the match snapping region")
     lfailed = D.hessian_layout(run)
+    tfailed = D.fisher_transfer(run)
     found, B = _wrap.run_bounded(run, "checks.C05_bounded")
     rr = run.harness("rt_rows.py", {"mode": "triu", "nmax": 9}, timeout=300)
     if rr["failures"]:
@@ -49,6 +52,10 @@ def check(run):
     _wrap.report_unproved(run, failed, found, "match.main guard")
     _wrap.report_unproved(run, mfailed, found or bool(run.violations), "match.main (snapping / code length / reported row)")
     _wrap.report_unproved(run, lfailed, found or bool(run.violations), "Hessian layout (writer in test_all_Fisher.convert_params / reader in simplifier.convert_params)")
+    if tfailed and not (found or run.violations):
+        D.report_structural(run, tfailed, "fisher-transfer", "pyvc/matrixvc.py")
+    elif tfailed:
+        run.notes.append("obligation no longer discharged: %s" % tfailed[0][1][:400])
     run.assume("A-sympy", "chain entries opaque (dict or not)")
     run.trust("pyvc", "z3 5.1.0")
     return run.finish("other", META["text"], CHECKER)
